@@ -34,6 +34,20 @@ Definition run_temps (chips : list kchip) (zones : list kzone) (fahr : bool) : j
               | [] => fahr || no_zero_trip zones
               | _ => fahr || no_zero_threshold chips end) ].
 
+(* class chips + coretemp platform chips (none of them also visible below /sys/class/hwmon) *)
+Definition readable_sensor (c : kchip) : bool :=
+  is_present (kc_name c) && existsb (fun s => match spec_milli (ks_input s) with Some _ => true | None => false end) (kc_sensors c).
+Definition run_temps_coretemp (chips plat : list kchip) (zones : list kzone) (fahr : bool) : jv :=
+  let es := hwmon_entries chips ++ coretemp_names plat in
+  let zs := map zone_entry zones in
+  let all := chips ++ plat in
+  JL [ JL [JL (map jv_tentry (hwmon_entries chips)); JL (map jv_zentry zs); JL (map jv_tentry (hwmon_entries plat))];
+       jv_outcome jv_tdict (sensors_temperatures es zs fahr);
+       (if forallb kchip_ok all && forallb kzone_ok zones && (existsb readable_sensor all) then
+          JC "Val" [jv_tdict (present_names (map kc_name all) (fun n => spec_temps_of fahr n all))]
+        else jnone);
+       jbool (existsb readable_sensor plat) ].
+
 (* arbitrary file contents: model only *)
 Definition run_temps_raw (es : list tentry) (zs : list zentry) (fahr : bool) : jv :=
   JL [ jv_outcome jv_tdict (sensors_temperatures es zs fahr) ].
@@ -43,15 +57,17 @@ Definition jv_fdict (d : list (bytes * list freading)) : jv :=
   JL (map (fun kv => JL [JB (fst kv); JL (map jv_freading (snd kv))]) d).
 Definition jv_fentry (e : fentry) : jv := JL [jfres (f_input e); jfres (f_name e); jfres (f_label e)].
 
-Definition run_fans (chips : list kfanchip) : jv :=
-  let es := fan_entries chips in
-  JL [ JL (map jv_fentry es);
-       jv_outcome jv_fdict (sensors_fans true es);
+(* chips in psutil's basename order, each tagged nested (below device/) or direct *)
+Definition run_fans (tagged : list (bool * kfanchip)) : jv :=
+  let direct := map snd (filter (fun x => negb (fst x)) tagged) in
+  let nested := map snd (filter (fun x => fst x) tagged) in
+  let chips := map snd tagged in
+  JL [ JL (map jv_fentry (fan_entries chips));
+       jv_outcome jv_fdict (sensors_fans_tree true (fan_entries direct) (fan_entries nested));
        (if forallb kfanchip_ok chips then
           JC "Val" [jv_fdict (present_names (map kfc_name chips) (fun n => spec_fans_of n chips))]
         else jnone);
-       jbool (fan_names_readable chips);
-       jv_outcome jv_fdict (sensors_fans false es) ].
+       jbool (match fan_entries direct, fan_entries nested with _ :: _, _ :: _ => true | _, _ => false end) ].
 Definition run_fans_raw (es : list fentry) : jv :=
   JL [ jv_outcome jv_fdict (sensors_fans true es) ].
 
@@ -95,29 +111,30 @@ Definition spec_mean (l : list freq) : option freq :=
   | _ => Some {| fq_cur := mean (map fq_cur l); fq_min := mean (map fq_min l); fq_max := mean (map fq_max l) |}
   end.
 
-Fixpoint zip_cpuinfo (ps : list kproc) (cs : list kcpu) : option (list freq) :=
-  match ps, cs with
+Fixpoint zip_cpuinfo (ms : list Q) (cs : list kcpu) : option (list freq) :=
+  match ms, cs with
   | [], [] => Some []
-  | p :: ps', Online _ mn mx :: cs' =>
-    match zip_cpuinfo ps' cs' with
-    | Some r => Some ({| fq_cur := spec_mhz p; fq_min := mhz (dec_val mn); fq_max := mhz (dec_val mx) |} :: r)
+  | m :: ms', Online _ mn mx :: cs' =>
+    match zip_cpuinfo ms' cs' with
+    | Some r => Some ({| fq_cur := m; fq_min := mhz (dec_val mn); fq_max := mhz (dec_val mx) |} :: r)
     | None => None
     end
   | _, _ => None
   end.
 
-Definition run_cpufreq (sysfs : bool) (procs : list kproc) (cpus : list kcpu) : jv :=
-  let cpuinfo := FC (k_cpuinfo procs) in
+Definition run_cpufreq (sysfs : bool) (blocks : list cblock) (cpus : list kcpu) : jv :=
+  let cpuinfo := FC (k_cpuinfo blocks) in
   let ps := map cpu_policy cpus in
   let m := cpu_freq_platform sysfs cpuinfo ps in
+  let ms := spec_mhz_list blocks in
   let spec :=
-    if forallb kproc_ok procs && forallb kcpu_ok cpus then
+    if cpuinfo_ok blocks && forallb kcpu_ok cpus then
       if sysfs then
-        if Nat.eqb (length procs) (length cpus) then zip_cpuinfo procs cpus
+        if Nat.eqb (length ms) (length cpus) then zip_cpuinfo ms cpus
         else Some (map spec_freq cpus)
-      else Some (map (fun p => {| fq_cur := spec_mhz p; fq_min := 0; fq_max := 0 |}) procs)
+      else Some (map (fun x => {| fq_cur := x; fq_min := 0; fq_max := 0 |}) ms)
     else None in
-  JL [ JL [JB (k_cpuinfo procs); JL (map jv_policy ps)];
+  JL [ JL [JB (k_cpuinfo blocks); JL (map jv_policy ps)];
        JL [jv_outcome (fun l => JL (map jv_freq l)) m;
            jv_outcome (jopt jv_freq) (do l <- m; Val (cpu_freq_mean l))];
        match spec with
@@ -133,27 +150,27 @@ Definition jz_opt := jopt JZ.
 Definition spec_front (n : Z) : option Z := if 1 <=? n then Some n else None.
 
 (* cpu_count(logical=True / False) *)
-Definition run_cpucount (sysconf : option Z) (procs : list kproc) (stat : list statline)
+Definition run_cpucount (sysconf : option Z) (blocks : list cblock) (stat : list statline)
                         (lists : list (kf bytes)) : jv :=
-  let cpuinfo := FC (k_cpuinfo procs) in
+  let cpuinfo := FC (k_cpuinfo blocks) in
   let st := FC (k_stat stat) in
-  let ok := forallb kproc_ok procs && forallb statline_ok stat && forallb (kf_ok text_ok) lists in
-  JL [ JL [JB (k_cpuinfo procs); JB (k_stat stat); JL (map (fun f => jfres (to_fres k_text f)) lists)];
+  let ok := cpuinfo_ok blocks && forallb statline_ok stat && forallb (kf_ok text_ok) lists in
+  JL [ JL [JB (k_cpuinfo blocks); JB (k_stat stat); JL (map (fun f => jfres (to_fres k_text f)) lists)];
        JL [jv_outcome jz_opt (omap cpu_count_front (cpu_count_logical sysconf cpuinfo st));
            jv_outcome jz_opt (omap cpu_count_front (cpu_count_cores (map (to_fres k_text) lists) cpuinfo))];
        (if ok then
           JL [JC "Val" [jz_opt (match sysconf with
                                 | Some n => spec_front n
-                                | None => match procs with
-                                          | [] => spec_front (n_cpu_lines stat)
-                                          | _ => Some (Z.of_nat (length procs)) end
+                                | None => if 0 <? n_processors blocks then Some (n_processors blocks)
+                                          else spec_front (n_cpu_lines stat)
                                 end)];
               (if forallb is_present lists then
                  JC "Val" [jz_opt (match lists with
-                                   | [] => spec_front (spec_cores procs)
+                                   | [] => spec_front (spec_cores blocks)
                                    | _ => Some (Z.of_nat (length (distinct (map spec_text lists)))) end)]
                else jnone)]
-        else jnone) ].
+        else jnone);
+       jbool (no_processor_like blocks) ].
 Definition run_cpucount_raw (sysconf : option Z) (cpuinfo stat : fres) (lists : list fres) : jv :=
   JL [ JL [jv_outcome jz_opt (omap cpu_count_front (cpu_count_logical sysconf cpuinfo stat));
            jv_outcome jz_opt (omap cpu_count_front (cpu_count_cores lists cpuinfo))] ].
